@@ -19,6 +19,10 @@ func main() {
 	case "gen":
 		os.Exit(runGen(os.Args[2:]))
 	case "engine":
+		// the library prints diagnostics with fmt.Printf: keep them out of our output
+		if devnull, err := os.OpenFile(os.DevNull, os.O_WRONLY, 0); err == nil {
+			os.Stdout = devnull
+		}
 		os.Exit(runEngine(os.Args[2:]))
 	default:
 		fmt.Fprintln(os.Stderr, "unknown command", os.Args[1])
